@@ -3,9 +3,9 @@ from lib import core, propgen
 from harness.oracles import all as ALL
 
 ID = 'C08'
-UNITS = ['event_metrics', 'transcription_scores', 'seg_cluster_q', 'index_labels', 'multipitch_metrics', 'pattern_scores', 'tempo_detection', 'alignment_scores']
+UNITS = ['event_metrics', 'transcription_scores', 'seg_cluster_q', 'index_labels', 'multipitch_metrics', 'pattern_scores', 'tempo_detection', 'alignment_scores', 'beat_q', 'beat_ig']
 TRANSLATORS = []
-NOT_COVERED = 'Rational shifts on the exact lattice; chord.evaluate shift and beat-metric shifts are covered by the oracle only.'
+NOT_COVERED = 'Rational shifts on the exact lattice; chord.evaluate shift is covered by the oracle only.'
 ASSUMPTIONS = ['exact-arithmetic lattices for the correspondence (DESIGN.md section 2.1); NumPy/SciPy primitives as modelled per module']
 
 oracle_search = propgen.budgeted([ALL.for_property(ID)])
@@ -29,6 +29,6 @@ REFUTED = []
 MANIFEST = {
     'text': 'Shift theorems (events, boundaries, notes, pattern onsets, MIREX PCS), permutation theorems through max_size_iso (events, notes, frames; tempo estimates; reference pattern list) and label-bijection invariance of pairwise/Rand/ARI through the induced partition; two refutations (velocity P/R/F and AOR depend on note order).',
     'design_ref': 'DESIGN.md section 6, C08',
-    'level_note': 'Trusted: Coq kernel + vm_compute; correspondence harness per modelled metric; NumPy/SciPy primitives as modelled. ' + 'Rational shifts on the exact lattice; chord.evaluate shift and beat-metric shifts are covered by the oracle only.',
+    'level_note': 'Trusted: Coq kernel + vm_compute; correspondence harness per modelled metric; NumPy/SciPy primitives as modelled. ' + 'Rational shifts on the exact lattice; chord.evaluate shift is covered by the oracle only.',
     'technique': 'Coq proof on Gallina models of the task metrics (maximum-matching size lemmas, exact rational arithmetic); model/code correspondence by vm_compute',
 }
